@@ -45,12 +45,25 @@ func durationAtomics(c *core.Ctx) []atomicSite {
 		if !ok {
 			continue
 		}
-		if !an.IsNamed(fa.X.Type(), progressPkg, "IterationDurations") {
+		// the accumulator's atomics, also when they are grouped into small structs inside it
+		base := an.BaseIn(fa, progressPkg, "IterationDurations")
+		if base == nil {
 			continue
 		}
-		out = append(out, atomicSite{op, an.InstanceClasses(c, fa.X, 4)})
+		out = append(out, atomicSite{op, an.InstanceClasses(c, base, 4)})
 	}
 	return out
+}
+
+// accBase: the IterationDurations value an atomic field address belongs to (through by-value grouping structs).
+func accBase(addr ssa.Value) ssa.Value {
+	if b := an.BaseIn(addr, progressPkg, "IterationDurations"); b != nil {
+		return b
+	}
+	if fa, ok := addr.(*ssa.FieldAddr); ok {
+		return fa.X
+	}
+	return addr
 }
 
 func has(l []string, s string) bool {
@@ -210,7 +223,7 @@ func c01(c *core.Ctx, r *core.Report) {
 			if s.Op != "Add" || !reach[s.Fn] {
 				continue
 			}
-			for _, k := range classesVia(c, s.Call.Common().Args[0].(*ssa.FieldAddr).X, reach, 4) {
+			for _, k := range classesVia(c, accBase(s.Call.Common().Args[0]), reach, 4) {
 				hot[k] = true
 			}
 		}
@@ -911,7 +924,7 @@ func progressRoles(c *core.Ctx) (hot, lifetime string) {
 	sites := durationAtomics(c)
 	for _, s := range sites {
 		if s.Op == "Add" && reach[s.Fn] {
-			for _, k := range classesVia(c, s.Call.Common().Args[0].(*ssa.FieldAddr).X, reach, 4) {
+			for _, k := range classesVia(c, accBase(s.Call.Common().Args[0]), reach, 4) {
 				if k != "local" {
 					hot = k
 				}
@@ -930,7 +943,7 @@ func progressRoles(c *core.Ctx) (hot, lifetime string) {
 		if t == nil || t.Pkg == nil || t.Pkg.Pkg.Path() != "sync/atomic" || !(t.Name() == "Load" || t.Name() == "Swap") {
 			continue
 		}
-		if an.D().Of(src.Call.Args[0].(*ssa.FieldAddr).X) == an.D().Of(s.Call.Common().Args[0].(*ssa.FieldAddr).X) {
+		if an.D().Of(accBase(src.Call.Args[0])) == an.D().Of(accBase(s.Call.Common().Args[0])) {
 			continue // same instance (check-then-update), not a merge
 		}
 		for _, k := range s.classes {
